@@ -229,9 +229,28 @@ func (sw *sndWorld) stepNotify(ctrs *[]uint64, op string, judge bool) (viol []st
 	switch f[0] {
 	case "notify":
 		before := sw.w.Len()
+		lookedUp, found := false, false
+		if len(f) > 1 && f[1] == "sync" {
+			// the peer's result for this notification is handled while the write call is still in progress (loop-back
+			// connection, fast peer): the lookup by its counter happens from inside the write
+			sw.w.OnWrite = func(b []byte) {
+				sw.w.OnWrite = nil
+				var dg model.Datagram
+				if json.Unmarshal(b, &dg) != nil || dg.Datagram.Header.MsgCounter == nil {
+					return
+				}
+				lookedUp = true
+				got, err := sw.s.DatagramForMsgCounter(*dg.Datagram.Header.MsgCounter)
+				found = err == nil && got.Header.MsgCounter != nil && *got.Header.MsgCounter == *dg.Datagram.Header.MsgCounter
+			}
+		}
 		c, err := sw.s.Notify(sw.src, sndDest(1), model.CmdType{MeasurementListData: &model.MeasurementListDataType{}})
+		sw.w.OnWrite = nil
 		if err != nil || c == nil || sw.w.Len() != before+1 {
 			return []string{"Notify failed"}, "notify:error"
+		}
+		if len(f) > 1 && (!lookedUp || !found) && judge {
+			viol = append(viol, fmt.Sprintf("a notification that is already written to the connection cannot be retrieved by its counter | lookedUp=%v found=%v", lookedUp, found))
 		}
 		*ctrs = append(*ctrs, uint64(*c))
 		sw.promoTouch(uint64(*c), true)
@@ -325,7 +344,7 @@ func c13NotifyDriver() *engine.HDriver {
 		altW = append(altW, "notify", "other:write")
 	}
 	starts = append(starts, alt, altW)
-	return &engine.HDriver{Name: "notify-cache", Alphabet: []string{"notify", "get:oldest", "get:second", "get:newest", "get:evicted", "other", "other:write"}, Starts: starts,
+	return &engine.HDriver{Name: "notify-cache", Alphabet: []string{"notify", "get:oldest", "get:second", "get:newest", "get:evicted", "other", "other:write", "notify:sync"}, Starts: starts,
 		Step: func(hist []string, op string) engine.HStep {
 			sw := newSndWorld()
 			var ctrs []uint64
